@@ -1589,7 +1589,7 @@ fn run(st: &mut State, line: &str) -> String {
     // --dump: the primary output cut into the texts of the individual printers
     let (dst, dseq) = if modes.contains('D') && raw_argv.is_none() && !died && (lib.class == "O" || lib.class == "P") {
         let primary: Option<Vec<u8>> = if out_cls == "-" {
-            if stdout_cls == "o" { tool.stdout.clone() } else { None }
+            if stdout_cls == "o" || (stdout_cls.len() > 1 && stdout_cls.starts_with('p')) { tool.stdout.clone() } else { None }
         } else if out_cls == "g" || has_pre_cls(out_cls) {
             std::fs::read(&out_path).ok()
         } else {
